@@ -26,7 +26,7 @@ CORRESPONDENCES = [
 ]
 RULE = ("real committed snapshots (single process Snapshot.take into a scratch dir; two Stateful groups holding plain tensors "
         "of float32/float64/float16/bfloat16/int64/int32/int16/uint8/bool incl. 0-d and zero-length ones, two chunked "
-        "tensors (chunk override 40..100 bytes), a complex64 tensor (torch_save), python objects, primitives, a list; "
+        "tensors (chunk override 40..100 bytes), a complex64 tensor (torch_save) and a chunked complex64 tensor (torch_save chunks), python objects, primitives, a list; "
         "slab threshold 16..4096 so several slabs exist; taken with batching on and off). For every payload file and "
         "damage in {deleted, truncated at 0, 1, mid, size-1, every entry boundary and boundary+-1} (thorough: every length "
         "of files <= 4 kB for the calls touching the file) the snapshot directory is copied (hard links), the copy is "
@@ -158,7 +158,7 @@ def build_items(spec):
          ("p", ("p", r.randint(1, 99))), ("s", ("p", "str%d" % r.randint(0, 9)))]
     n = [("x", T("int16", [4])), ("lst", ("l", [T("float64", [2]), ("p", 3.5)])), ("e", T("int32", [0])),
          ("t", T("bool", [5])), ("big2", T("int64", [r.randint(6, 8), 2])), ("o2", ("o", (("w", (1.5, 2.5)), ("n", 3)))),
-         ("f", T("float16", [r.randint(1, 9)]))]
+         ("f", T("float16", [r.randint(1, 9)])), ("cc", T("complex64", [r.randint(6, 8)]))]
     if spec.get("small"):
         m = [x for x in m if x[0] in spec["small"]]
         n = [x for x in n if x[0] in spec["small"]]
@@ -539,7 +539,7 @@ def sweep(ctx: Ctx, res: Result, S: Snap, cases: dict, deadline: float, every_le
     per_file = max(1.0, (deadline - time.time()) / max(1, len(files)))
     for k, rel in enumerate(files):
         size = S.files[rel]
-        file_deadline = min(deadline, time.time() + 2.5 * per_file)
+        file_deadline = deadline if every_length else min(deadline, time.time() + 2.5 * per_file)
         touching = [p for p in paths if any(loc == rel for loc, _ in S.reads[p])]
         others = [p for p in paths if p not in touching]
         base = damage_points(S, rel, False)
@@ -601,6 +601,8 @@ def sweep(ctx: Ctx, res: Result, S: Snap, cases: dict, deadline: float, every_le
                                          nontrivial=p in touching)
                                 res.count("call.api", "read_object:" + entry_kind(e))
                                 res.count("call.verdict", kind + (":needed-damage" if damaged else ""))
+                                if p in touching and not damaged:
+                                    res.count("read_object.harmless-damage", cut_class(S, rel, dmg))
                                 res.count("read_object.limit", limit)
                 finally:
                     shutil.rmtree(copy, ignore_errors=True)
@@ -652,8 +654,8 @@ def check_consumer(ctx: Ctx, res: Result):
             try:
                 t = tensor_from_memoryview(memoryview(bytes(n)), dtype=getattr(torch, dt), shape=shape)
                 ok = 1
-                if tuple(t.shape) != tuple(shape) or n != full:
-                    res.failures.append(Failure("C04:tensor_from_memoryview-accepts-wrong-length",
+                if n < full:        # fewer bytes than the tensor has: partial contents accepted
+                    res.failures.append(Failure("C04:tensor_from_memoryview-accepts-short-buffer",
                                                 f"tensor_from_memoryview accepted {n} bytes for {dt}{shape} (needs {full})",
                                                 {"kind": "consumer", "dtype": dt, "shape": shape, "n": n}))
             except Exception:  # noqa
@@ -995,7 +997,7 @@ def correspond(ctx: Ctx) -> Result:
         check_sharded(ctx, res)
         check_legacy(ctx, res)
         specs = gen_specs(ctx)
-        budget = (420.0 if ctx.thorough else 55.0) * ctx.widen
+        budget = (560.0 if ctx.thorough else 55.0) * ctx.widen
         cases: dict = {}
         snaps = []
         t1 = time.time()
@@ -1004,7 +1006,9 @@ def correspond(ctx: Ctx) -> Result:
             snaps.append(S)
             res.count("snapshot.files", len(S.files))
             res.count("snapshot.slabs", sum(1 for r in S.files if S.layout_class(r).startswith("slab")))
-            deadline = t1 + budget * (i + 1) / len(specs)
+            # thorough: the first snapshot gets half of the budget (every truncation length of files <= 4 kB)
+            share = (i + 1) / len(specs) if not ctx.thorough else (0.5 + 0.5 * i / max(1, len(specs) - 1))
+            deadline = t1 + budget * share
             sweep(ctx, res, S, cases, deadline, every_length=ctx.thorough and i == 0)
         check_plan(ctx, res, snaps)
         for S in snaps:
@@ -1033,7 +1037,7 @@ def replay(ctx: Ctx, data):
         except Exception:  # noqa
             return None
         full = ESZ[data["dtype"]] * prod(data["shape"])
-        return Failure("C04:tensor_from_memoryview-accepts-wrong-length", "accepted", data) if data["n"] != full else None
+        return Failure("C04:tensor_from_memoryview-accepts-short-buffer", "accepted", data) if data["n"] < full else None
     if data.get("kind") == "sharded":
         sc = data["scenario"]
         dmg = tuple(data["damage"])
